@@ -53,7 +53,7 @@ def via_wire(s, kind, reply_hex, handle, wire):
     return (r.h if r.ok else None), r
 
 
-def register(s, rng, setup, pw, cred, id_u=None, id_s=None, ksf=None, wire=True, tag=None):
+def register(s, rng, setup, pw, cred, id_u=None, id_s=None, ksf=None, wire=True, tag=None, rng_finish=None, params_via=None):
     tag = tag or s.fresh("reg")
     f = Flow()
     f.pw, f.cred, f.id_u, f.id_s, f.ksf = pw, cred, id_u, id_s, ksf
@@ -72,8 +72,8 @@ def register(s, rng, setup, pw, cred, id_u=None, id_s=None, ksf=None, wire=True,
     h, d = via_wire(s, "rresp", r2.msg, tag + ".rr", wire)
     if d is not None and f.add("de rresp", d).failed:
         return f
-    r3 = f.add("creg_finish", s.cmd("creg_finish", rng=rng, state=tag + ".cs", pw=pw, resp=h, id_u=id_u, id_s=id_s,
-                                    ksf=ksf, out=tag + ".up"))
+    r3 = f.add("creg_finish", s.cmd("creg_finish", rng=rng_finish or rng, state=tag + ".cs", pw=pw, resp=h, id_u=id_u, id_s=id_s,
+                                    ksf=ksf, out=tag + ".up", params_via=params_via))
     if r3.failed:
         return f
     f.rupl = r3.msg
@@ -100,7 +100,7 @@ def login_start(s, rng, pw, tag=None):
 
 
 def login(s, rng_c, rng_s, setup, file_h, pw, cred, ctx_c=None, ctx_s=None, id_u_c=None, id_s_c=None, id_u_s=None,
-          id_s_s=None, ksf=None, wire=True, tag=None, pw_finish=None, do_server_finish=True):
+          id_s_s=None, ksf=None, wire=True, tag=None, pw_finish=None, do_server_finish=True, params_via=None):
     """One login. Client-side parameters (*_c) and server-side parameters (*_s) are separate so that
     mismatches can be driven. pw_finish: password given to finish if different from start."""
     tag = tag or s.fresh("lg")
@@ -115,7 +115,7 @@ def login(s, rng_c, rng_s, setup, file_h, pw, cred, ctx_c=None, ctx_s=None, id_u
     if d is not None and f.add("de creq", d).failed:
         return f
     r2 = f.add("slogin_start", s.cmd("slogin_start", rng=rng_s, setup=setup, file=file_h, req=h, cred=cred, ctx=ctx_s,
-                                     id_u=id_u_s, id_s=id_s_s, out_state=tag + ".sl", out_msg=tag + ".cr"))
+                                     id_u=id_u_s, id_s=id_s_s, out_state=tag + ".sl", out_msg=tag + ".cr", params_via=params_via))
     if r2.failed:
         return f
     f.cresp = r2.msg
@@ -125,7 +125,7 @@ def login(s, rng_c, rng_s, setup, file_h, pw, cred, ctx_c=None, ctx_s=None, id_u
     if d is not None and f.add("de cresp", d).failed:
         return f
     r3 = f.add("clogin_finish", s.cmd("clogin_finish", state=tag + ".cl", pw=pw if pw_finish is None else pw_finish,
-                                      resp=h, ctx=ctx_c, id_u=id_u_c, id_s=id_s_c, ksf=ksf, out=tag + ".cf"))
+                                      resp=h, ctx=ctx_c, id_u=id_u_c, id_s=id_s_c, ksf=ksf, out=tag + ".cf", params_via=params_via))
     f.clogin_finish = r3
     if r3.failed:
         return f
